@@ -11,7 +11,7 @@ from proxy.http import handler as H
 from proxy.http.responses import BAD_REQUEST_RESPONSE_PKT, NOT_FOUND_RESPONSE_PKT, PROXY_AUTH_FAILED_RESPONSE_PKT
 from proxy.http.server import plugin as SP
 
-from vlib import envkit
+from vlib import envkit, refhttp, scen
 from vlib.hk import CFG, begin, ok, fail, skip, B, run, cat, concrete
 
 envkit.install()
@@ -20,6 +20,8 @@ FL = {
     'auth': FlagParser.initialize(['--threadless', '--max-sendbuf-size', '64', '--basic-auth', 'u:p']),
     'web': FlagParser.initialize(['--threadless', '--max-sendbuf-size', '32', '--enable-web-server', '--disable-http-proxy',
                                   '--enable-static-server', '--static-server-dir', '/srv/www', '--min-compression-length', '100000']),
+    'hello': FlagParser.initialize(['--threadless', '--max-sendbuf-size', '16', '--enable-web-server', '--disable-http-proxy'],
+                                   plugins=[scen.HelloRoute]),
     'proxy_t': FlagParser.initialize(['--threaded', '--max-sendbuf-size', '16']),
 }
 SP.open = lambda path, mode='r': _F(path)
@@ -62,14 +64,15 @@ RESP_HEAD = b'HTTP/1.1 200 OK\r\nContent-Length: 3\r\n\r\n'
 def flush_close(d0: int, d1: int, d2: int, s0: int, s1: int, s2: int, s3: int, eof_at: int) -> bool:
     """
     pre: 0 <= d0 < 256 and 0 <= d1 < 256 and 0 <= d2 < 256
-    pre: 0 <= s0 <= 3 and 0 <= s1 <= 3 and 0 <= s2 <= 3 and 0 <= s3 <= 3
+    pre: 0 <= s0 <= 4 and 0 <= s1 <= 4 and 0 <= s2 <= 4 and 0 <= s3 <= 3
     pre: 0 <= eof_at <= 3
     post: _
     """
     begin()
     cause = CFG['cause']
+    fin = CFG.get('fin')            # the client half-closes (FIN) after its request: at this iteration / 'eof': together with the upstream's EOF
     role = {'bad': 'proxy', 'unknown_scheme': 'proxy', 'auth': 'auth', 'web404': 'web', 'static': 'web', 'static404': 'web',
-            'upstream_eof': 'proxy', 'connect_fail': 'proxy'}[cause]
+            'upstream_eof': 'proxy', 'connect_fail': 'proxy', 'hello': 'hello'}[cause]
     with concrete():
         env = envkit.new_env()
         if cause == 'connect_fail':
@@ -109,6 +112,9 @@ def flush_close(d0: int, d1: int, d2: int, s0: int, s1: int, s2: int, s3: int, e
     elif cause == 'static404':
         cs.inq.append(b'GET /g HTTP/1.1\r\nHost: x\r\n\r\n')
         expected = NOT_FOUND_RESPONSE_PKT.tobytes()
+    elif cause == 'hello':
+        # a web route's ordinary keep-alive reply; it is the client's FIN that ends the connection
+        cs.inq.append(b'GET /hello HTTP/1.1\r\nHost: x\r\n\r\n')
     elif cause == 'connect_fail':
         cs.inq.append(b'GET http://h/ HTTP/1.1\r\n\r\n')
     else:
@@ -144,8 +150,12 @@ def flush_close(d0: int, d1: int, d2: int, s0: int, s1: int, s2: int, s3: int, e
                 if eof_wait == 0:
                     us.inq.append(b'')
                     eof_sent = True
+                    if fin == 'eof' and not cs.closed:
+                        cs.inq.append(b'')
                 else:
                     eof_wait -= 1
+        if fin == step and not cs.closed:
+            cs.inq.append(b'')
         e = xk.step()
         if e is not None:
             return fail('exception left the executor loop', exc=repr(e), step=step)
@@ -168,6 +178,13 @@ def flush_close(d0: int, d1: int, d2: int, s0: int, s1: int, s2: int, s3: int, e
         if cause == 'static':
             if not cs.out_at_close.startswith(b'HTTP/1.1 200 OK\r\n') or not cs.out_at_close.endswith(b'\r\n\r\nFILE-CONTENT-0123456789'):
                 return fail('static reply truncated at close', out=repr(cs.out_at_close))
+        elif cause == 'hello':
+            try:
+                m = refhttp.read_message(cs.out_at_close, True)
+            except refhttp.Malformed as e:
+                return fail('route reply truncated at close', why=str(e), out=repr(cs.out_at_close[-60:]))
+            if m['body'] != b'hello:/hello' or m['remainder'] != b'':
+                return fail('route reply not delivered exactly once before the close', out=repr(cs.out_at_close[-60:]))
         elif cause == 'connect_fail':
             if not cs.out_at_close.startswith(b'HTTP/1.1 502 ') or not cs.out_at_close.endswith(b'Bad Gateway'):
                 return fail('502 reply truncated at close', out=repr(cs.out_at_close))
@@ -246,6 +263,11 @@ def obligations(tier):
     obs = []
     for cause in ('bad', 'unknown_scheme', 'auth', 'web404', 'static', 'static404', 'connect_fail'):
         obs.append({'name': 'flush.%s' % cause, 'fn': 'flush_close', 'cfg': {'cause': cause}, 'timeout': 400, 'group': 'flush_close'})
+    # the client half-closes while the reply is (partly) still queued
+    for cause in ('bad', 'web404', 'static'):
+        obs.append({'name': 'flush.%s.fin1' % cause, 'fn': 'flush_close', 'cfg': {'cause': cause, 'fin': 1}, 'timeout': 400, 'group': 'flush_close'})
+    for f in (0, 1, 2):
+        obs.append({'name': 'flush.hello.fin%d' % f, 'fn': 'flush_close', 'cfg': {'cause': 'hello', 'fin': f}, 'timeout': 400, 'group': 'flush_close'})
     n = len(RESP_HEAD) + 3
     seglists = [[], [n - 3], [n - 1], [10, n - 13], [n - 3, 1, 1]]
     if tier == 'thorough':
@@ -256,6 +278,10 @@ def obligations(tier):
                 continue
             obs.append({'name': 'flush.upstream_eof.segs%s.eof%d' % ('_'.join(map(str, segs)) or 'whole', ea), 'fn': 'flush_close',
                         'cfg': {'cause': 'upstream_eof', 'segs': segs, 'eof_at': ea}, 'timeout': 600, 'group': 'flush_close'})
+    for segs in ([], [n - 3]):
+        for ea in (0, 1):
+            obs.append({'name': 'flush.upstream_eof.segs%s.eof%d.fin' % ('_'.join(map(str, segs)) or 'whole', ea), 'fn': 'flush_close',
+                        'cfg': {'cause': 'upstream_eof', 'segs': segs, 'eof_at': ea, 'fin': 'eof'}, 'timeout': 600, 'group': 'flush_close'})
     obs.append({'name': 'threaded.bad', 'fn': 'threaded', 'cfg': {'cause': 'bad', 'eof_at': 0}, 'timeout': 400, 'group': 'threaded'})
     for ea in (0, 1, 2):
         obs.append({'name': 'threaded.upstream_eof.eof%d' % ea, 'fn': 'threaded', 'cfg': {'cause': 'upstream_eof', 'eof_at': ea},
@@ -268,11 +294,12 @@ META = {
         'quick': 'causes: 400 for garbage / unknown scheme, 407, web 404, static file reply, static 404, 502 after connect refusal, and upstream '
                  'data (38-byte response with 3 symbolic body bytes in 1..4 segments) followed by upstream EOF 0..3 iterations later; real '
                  'executor loop (_run_once) until the client socket is closed; client send outcome per write is a solver-chosen class among '
-                 '{everything, one byte, all but one byte, half} (>= 1 byte per write: the client keeps reading) for the first 3 writes, with '
+                 '{everything, one byte, all but one byte, half, one spurious wake-up (EAGAIN)} (the client keeps reading) for the first 3 writes; '
+                 'the client optionally half-closes (and stays readable at end-of-stream) while the reply is still queued, with '
                  '--max-sendbuf-size 16/32/64 so that replies need several writes; threaded run() variant for two causes',
         'thorough': 'upstream segmentation at every third position',
     },
-    'outside': 'outputs larger than ~150 bytes; EAGAIN storms (a write-ready socket that accepts nothing is excluded by the property\'s '
+    'outside': 'outputs larger than ~150 bytes; EAGAIN storms beyond 3 spurious wake-ups (a write-ready socket that never accepts anything is excluded by the property\'s '
                '"provided it keeps reading"); kernel RST behaviour; TLS',
     'stubs': ['FakeSocket (fair short writes), connect stub, FakeSelector deriving readiness from the fake sockets, FakeLoop/asyncio shim',
               'FakeFS for the static file'],
